@@ -72,7 +72,7 @@ func randWatchAct(rng *rand.Rand, variant string) WatchAct {
 				a.CloseAfter = 2 + rng.Intn(3)
 			}
 		default:
-			a.Inject = map[int]string{rng.Intn(3): []string{"nilobj", "nonobj"}[rng.Intn(2)]}
+			a.Inject = map[int]string{rng.Intn(3): []string{"nilobj", "nonobj", "error-nil", "error-pod"}[rng.Intn(4)]}
 		}
 	default: // relist and the others: anything goes, the relist must repair it
 		switch {
@@ -147,7 +147,7 @@ func runCtlScenario(w *ndWriter, seed int64, variant string, idx int) bool {
 		}
 	case "listfail":
 		failAt = rng.Intn(4)
-		failKind = []string{"error", "nil", "notlist", "nonobject", "ctxerr"}[rng.Intn(5)]
+		failKind = []string{"error", "nil", "notlist", "nonobject", "ctxerr", "nometa"}[rng.Intn(6)]
 		for i := 0; i <= failAt; i++ {
 			a := ListAct{}
 			if i == failAt {
@@ -325,7 +325,16 @@ func runCtlScenario(w *ndWriter, seed int64, variant string, idx int) bool {
 		n, maxIn, _ := srv.ListStats()
 		tr.LogRaw("drv", "lists", fmt.Sprintf(`"n":%d,"want":%d,"maxinflight":%d,"elapsed_us":%d,"budget_us":%d`, n, want, maxIn, time.Since(start).Microseconds(), budget.Microseconds()))
 		slowNow = 0
-		// shut down at a seeded phase of the list/tick cycle
+		// shut down at a seeded phase of the list/tick cycle; in half of the runs while a List call is in flight
+		// that returns only when its context is cancelled
+		if rng.Intn(2) == 0 {
+			srv.mu.Lock()
+			for i := srv.nList; i < len(srv.lists); i++ {
+				srv.lists[i].Gate = make(chan struct{})
+			}
+			srv.mu.Unlock()
+			time.Sleep(period + period/2 + latency)
+		}
 		time.Sleep(time.Duration(rng.Int63n(int64(period + latency + 1))))
 	case "shutdown":
 		steps := 6 + rng.Intn(20)
